@@ -1,0 +1,99 @@
+package rockredis
+
+import (
+	"bytes"
+
+	"github.com/youzan/ZanRedisDB/common"
+)
+
+// A member, field or key repeated inside one command must be applied and
+// counted once (as redis does): the write paths look up the committed data to
+// decide whether an element is new or existing, and a repeated argument would
+// be counted again since the first occurrence is still in the write batch only.
+
+const dedupLinearLimit = 8
+
+// dedupArgs removes the repeated arguments, keeping the first occurrence and the order.
+// The input is returned unchanged (no allocation of a new slice) if nothing is repeated.
+func dedupArgs(args [][]byte) [][]byte {
+	if len(args) < 2 {
+		return args
+	}
+	dupAt := -1
+	if len(args) <= dedupLinearLimit {
+		for i := 1; i < len(args) && dupAt < 0; i++ {
+			for j := 0; j < i; j++ {
+				if bytes.Equal(args[i], args[j]) {
+					dupAt = i
+					break
+				}
+			}
+		}
+		if dupAt < 0 {
+			return args
+		}
+	}
+	seen := make(map[string]struct{}, len(args))
+	out := make([][]byte, 0, len(args))
+	for _, a := range args {
+		if _, ok := seen[string(a)]; ok {
+			continue
+		}
+		seen[string(a)] = struct{}{}
+		out = append(out, a)
+	}
+	if len(out) == len(args) {
+		return args
+	}
+	return out
+}
+
+// lastOccurrences returns, for every index, whether the name at that index does not
+// occur again later (the last one wins as in redis), or nil if no name is repeated.
+func lastOccurrences(n int, name func(i int) []byte) []bool {
+	if n < 2 {
+		return nil
+	}
+	last := make(map[string]int, n)
+	for i := 0; i < n; i++ {
+		last[string(name(i))] = i
+	}
+	if len(last) == n {
+		return nil
+	}
+	keep := make([]bool, n)
+	for i := 0; i < n; i++ {
+		keep[i] = last[string(name(i))] == i
+	}
+	return keep
+}
+
+// dedupKVRecords removes the records whose key is repeated later, the last one wins.
+func dedupKVRecords(args []common.KVRecord) []common.KVRecord {
+	keep := lastOccurrences(len(args), func(i int) []byte { return args[i].Key })
+	if keep == nil {
+		return args
+	}
+	out := make([]common.KVRecord, 0, len(args))
+	for i, a := range args {
+		if keep[i] {
+			out = append(out, a)
+		}
+	}
+	return out
+}
+
+// dedupScorePairs removes the pairs whose member is repeated later, the last one wins.
+func dedupScorePairs(args []common.ScorePair) []common.ScorePair {
+	keep := lastOccurrences(len(args), func(i int) []byte { return args[i].Member })
+	if keep == nil {
+		return args
+	}
+	out := make([]common.ScorePair, 0, len(args))
+	for i, a := range args {
+		if keep[i] {
+			out = append(out, a)
+		}
+	}
+	return out
+}
